@@ -27,6 +27,7 @@ CONSTANTS MaxObj, MaxSteps,
           QueryClasses,       \* classes Query may ask for
           AllowClear, AllowRelate, AllowSweep, AllowQueryX,
           AllowDeclare,       \* a query object may be built first (Declare) and evaluated later (EvalDeclared)
+          AllowInfer,         \* a rule query may infer a new instance from a live one (Infer)
           CopyModes,          \* ways other than calling the class in which a new instance comes into being from a live one:
                               \* copy | deepcopy | replace | from_dao (ORM reconstruction)  - {} switches CreateFrom off
           UnregisteredModes,  \* deviation: creation modes whose allocation bypasses Symbol.__new__ ({} = as implemented)
@@ -39,7 +40,7 @@ VARIABLES next, cls, roots, fld, dead, deadR, tracked, facts, pinned,      \* R 
 vars == <<next, cls, roots, fld, dead, deadR, tracked, facts, pinned, nodes, freeIdx, instIdx, classIdx, relIndex, edges,
           lastQ, lastRel, steps, h, declared>>
 
-AllClasses == {"Base", "Mid", "Leaf", "Other", "DA", "DB1", "DB2", "DD", "P", "C"}
+AllClasses == {"Base", "Mid", "Leaf", "Other", "DA", "DB1", "DB2", "DD", "P", "C", "T"}      \* T = instances inferred by a rule
 \* subclass lists in the order  [T] + recursive_subclasses(T)  (breadth of __subclasses__, then recursion)
 SubList(T) == CASE T = "Base" -> <<"Base", "Mid", "Leaf">>
                 [] T = "Mid"  -> <<"Mid", "Leaf">>
@@ -243,6 +244,18 @@ Clear ==
   /\ UNCHANGED <<next, cls, roots, fld, dead, deadR, pinned, lastQ, lastRel>>
   /\ Log([a |-> "clear", live |-> Alive, liveR |-> AliveR])
 
+\* A rule query over the explicit domain [p] infers a new instance of class T from p:  with q: Add(v, inference(T)(p = x)).
+\* The inferred instance is an instance like any other: it is registered, it refers to p, the caller holds the result; the query
+\* object and its variables are dropped at once.  The evaluation sweeps first and (as implemented) pins what its variable ranged over.
+Infer(p) ==
+  /\ AllowInfer /\ next <= MaxObj /\ p \in roots /\ p \notin dead /\ cls[p] = "P"
+  /\ next' = next + 1 /\ cls' = Append(cls, "T") /\ roots' = roots \cup {next} /\ tracked' = tracked \cup {next, p}
+  /\ fld' = fld \cup {<<"p", next, p>>}
+  /\ SetG(AddNode(Ensure(SweepG(G, dead), p), next, "T"))
+  /\ pinned' = IF StrongExprTable THEN pinned \cup {p} ELSE pinned
+  /\ UNCHANGED <<dead, deadR, facts, lastQ, lastRel>>
+  /\ Log([a |-> "infer", p |-> p, o |-> next, live |-> Alive \cup {next}, liveR |-> AliveR \cup {next}])
+
 \* q = an(entity(let(T, None))) is built now and evaluated later: building touches nothing; the evaluation ranges over the
 \* instances that exist WHEN IT RUNS (not over those that existed when the query was written)
 Declare(T) ==
@@ -262,6 +275,7 @@ Step == \/ \E c \in CreateClasses : Create(c)
         \/ \E T \in QueryClasses : QueryX(T)
         \/ \E T \in QueryClasses : QueryFirst(T)
         \/ \E p \in roots, c \in roots : Relate(p, c)
+        \/ \E p \in roots : Infer(p)
         \/ Clear
 NextOld == /\ steps < MaxSteps /\ steps' = steps + 1
         /\ \/ \E c \in CreateClasses : Create(c)
